@@ -319,6 +319,10 @@ func (w *World) checkCommit(ci *fakepg.CommitInfo) {
 	if strings.HasPrefix(ci.Owner, "setup") || ci.Owner == "schema" {
 		return
 	}
+	if strings.HasPrefix(ci.Owner, "prune#") {
+		w.checkPrune(ci)
+		return
+	}
 	ps := w.pairByOwner(ci.Owner)
 	// stamps touched by this commit
 	touched := map[string]bool{}
